@@ -475,12 +475,12 @@ def main():
         bins, errs = build_harness(cfgs)
         if errs: print('harness build failed:', errs); return 2
         subprocess.run(['lake', 'build', 'sucds_model'], cwd=LEAN, capture_output=True, env=ENV)
-        if any(l.startswith('big ') for l in cases[0]):
+        if any(l.startswith(('big ', 'bigq ')) for l in cases[0]):
             for c in cfgs:
                 impl, _ = run_impl(bins[c], cases, work, 'replay-' + c)
                 print('config', c)
                 for req, I in zip(cases[0], impl[0]):
-                    if req.startswith('big '): print('  %s\n      impl : %s\n      fails: %s' % (req, I, gens.big_oracle(prop, I)))
+                    if req.startswith(('big ', 'bigq ')): print('  %s\n      impl : %s\n      fails: %s' % (req, I, gens.big_oracle(prop, I)))
             return 0
         for c in cfgs:
             impl, _ = run_impl(bins[c], cases, work, 'replay-' + c)
@@ -534,12 +534,12 @@ def main():
         f, st = compare(c, cases, impl, model)
         all_findings += f; stats_by_cfg[c] = st; impl_by_cfg[c] = impl; model_by_cfg[c] = model
         log(c, st, 'findings:', len(f))
-    # large values (C08, C13): self-checking requests answered by the implementation alone, sizes around 2^16, 2^20 and any
+    # large values: self-checking requests answered by the implementation alone, sizes around 2^16, 2^20 and any
     # integer literal that is new in the sources (harness/src/big.rs; the model driver cannot evaluate values this large)
     big_regular = None
     if prop in gens.BIG_SEARCH_PROPS:
-        bl = gens.big_search_lines(gens.new_literals(REPO))
-        big_regular = big_search(prop, bins, bl[:24] if tier == 'quick' else bl, 90 if tier == 'quick' else 900)
+        bl = gens.big_search_lines(gens.new_literals(REPO), prop)
+        big_regular = big_search(prop, bins, bl[:24] if (tier == 'quick' and prop in ('C08', 'C13')) else bl, 90 if tier == 'quick' else 900)
         log('large-value requests:', BIG_STATS['requests'], 'failing:', big_regular[1:] if big_regular else None)
     driver_fresh = lean.get('driver_fresh', True)
     if not driver_fresh:
@@ -642,7 +642,7 @@ def main():
             try:
                 lits = gens.new_literals(REPO)
                 log('searching large values; new literals in the sources:', lits[:12])
-                big_found = big_search(prop, bins2, gens.big_search_lines(lits), 240 if tier == 'quick' else 1200)
+                big_found = big_search(prop, bins2, gens.big_search_lines(lits, prop), 240 if tier == 'quick' else 1200)
             except Exception as e:
                 log('large-value search failed:', e)
         if big_found:
